@@ -236,7 +236,7 @@ def run_case(case):
             {k: x for k, x in e.items() if k != 'h'} for e in state['log']])
         if case.get('handled') == 'fail-command':
             # features the recorded finding is keyed by
-            v['rerun_after_fail_command'] = True
+            v['rerun_after_immediate_failure'] = True
             v['waiting_tasks'] = any(str(t).endswith(':WAITING')
                                      for t in v.get('tasks') or [])
         res['violations'].append(v)
